@@ -563,12 +563,15 @@ SYM_MATH = SymMath()
 
 # --------------------------------------------------------------------------
 # rebound builtins
+TYPE_ALIASES = {}      # rebound constructor -> the type it stands for (float, list)
+
+
 def sym_isinstance(x, types):
-    # `float` is rebound to sym_float in scratch namespaces
+    # `float` / `list` are rebound in scratch namespaces
     if isinstance(types, tuple):
-        types = tuple(float if T is sym_float else T for T in types)
-    elif types is sym_float:
-        types = float
+        types = tuple(TYPE_ALIASES.get(T, T) if callable(T) and not isinstance(T, type) else T for T in types)
+    elif callable(types) and not isinstance(types, type):
+        types = TYPE_ALIASES.get(types, types)
     if isinstance(x, SymNum):
         return x.isinstance_(types)
     if isinstance(x, SymBool):
@@ -587,6 +590,9 @@ def sym_float(x=0.0):
     if isinstance(x, AnyObj):
         return x.float_()
     return float(x)
+
+
+TYPE_ALIASES[sym_float] = float
 
 
 def _ite_num(c, a, b):
